@@ -86,9 +86,9 @@ theorem mem_foldl_sub (l : List Cands) (a : Cands) (h : a ∈ l) : CandsSub a (l
   · intro v hv; rw [h4]; simp only [List.mem_append, List.mem_flatten, List.mem_map]
     exact Or.inr ⟨a.y2, ⟨a, h, rfl⟩, hv⟩
 
-theorem shape_sub_all (d : Diagram) (tips) (s : Shape) (hs : s ∈ d.shapes) :
-    CandsSub (shapeCands s (tips s.id)) (allCands d tips) := by
-  have h := mem_foldl_sub (d.shapes.map fun s => shapeCands s (tips s.id)) (shapeCands s (tips s.id))
+theorem shape_sub_all (cfg : Cfg) (d : Diagram) (tips) (s : Shape) (hs : s ∈ d.shapes) :
+    CandsSub (shapeCands cfg s (tips s.id)) (allCands cfg d tips) := by
+  have h := mem_foldl_sub (d.shapes.map fun s => shapeCands cfg s (tips s.id)) (shapeCands cfg s (tips s.id))
     (List.mem_map.2 ⟨s, hs, rfl⟩)
   constructor
   · intro v hv; show v ∈ (_ ++ _ : List Int); exact List.mem_append.2 (Or.inl (h.x1 v hv))
@@ -96,8 +96,8 @@ theorem shape_sub_all (d : Diagram) (tips) (s : Shape) (hs : s ∈ d.shapes) :
   · intro v hv; show v ∈ (_ ++ _ : List Int); exact List.mem_append.2 (Or.inl (h.x2 v hv))
   · intro v hv; show v ∈ (_ ++ _ : List Int); exact List.mem_append.2 (Or.inl (h.y2 v hv))
 
-theorem conn_sub_all (d : Diagram) (tips) (c : Conn) (hc : c ∈ d.conns) :
-    CandsSub (connCands c) (allCands d tips) := by
+theorem conn_sub_all (cfg : Cfg) (d : Diagram) (tips) (c : Conn) (hc : c ∈ d.conns) :
+    CandsSub (connCands c) (allCands cfg d tips) := by
   have h := mem_foldl_sub (d.conns.map connCands) (connCands c) (List.mem_map.2 ⟨c, hc, rfl⟩)
   constructor
   · intro v hv; show v ∈ (_ ++ _ : List Int); exact List.mem_append.2 (Or.inr (h.x1 v hv))
@@ -107,9 +107,9 @@ theorem conn_sub_all (d : Diagram) (tips) (c : Conn) (hc : c ∈ d.conns) :
 
 /-- **fold_encloses**: the reported box is below every min-candidate and above every max-candidate of every shape
     and connection (any number of them) -/
-theorem fold_encloses (d : Diagram) (tips) (hne : d.shapes ≠ []) (c : Cands) (hc : CandsSub c (allCands d tips)) :
-    (∀ v ∈ c.x1, (boundingBox d tips).x1 ≤ v) ∧ (∀ v ∈ c.y1, (boundingBox d tips).y1 ≤ v) ∧
-    (∀ v ∈ c.x2, v ≤ (boundingBox d tips).x2) ∧ (∀ v ∈ c.y2, v ≤ (boundingBox d tips).y2) := by
+theorem fold_encloses (cfg : Cfg) (d : Diagram) (tips) (hne : d.shapes ≠ []) (c : Cands) (hc : CandsSub c (allCands cfg d tips)) :
+    (∀ v ∈ c.x1, (boundingBox cfg d tips).x1 ≤ v) ∧ (∀ v ∈ c.y1, (boundingBox cfg d tips).y1 ≤ v) ∧
+    (∀ v ∈ c.x2, v ≤ (boundingBox cfg d tips).x2) ∧ (∀ v ∈ c.y2, v ≤ (boundingBox cfg d tips).y2) := by
   have he : d.shapes.isEmpty = false := by cases hd : d.shapes with
     | nil => exact absurd hd hne
     | cons _ _ => rfl
@@ -176,8 +176,10 @@ theorem round_trunc_near (r : Rat) : (truncZ r : Rat) - 1 ≤ (roundHalfAway r :
 theorem viewport_contains (bb : IBox) (pad rootSW : Int) (rootDouble : Bool) (h : 0 ≤ rootSW) :
     viewportContains (viewBox bb pad rootSW rootDouble) bb pad = true := by
   have hc := ceilHalf_nonneg rootSW h
+  have hI : (0 : Int) ≤ INNER_BORDER_OFFSET := by decide
   unfold viewportContains viewBox
-  cases rootDouble <;> simp only [INNER_BORDER_OFFSET, decide_eq_true_eq] <;> simp only [Bool.false_eq_true, if_false, if_true] <;>
+  generalize INNER_BORDER_OFFSET = I at hI ⊢
+  cases rootDouble <;> simp only [decide_eq_true_eq] <;> simp only [Bool.false_eq_true, if_false, if_true] <;>
     omega
 
 /-! ### sub-candidate bookkeeping -/
@@ -196,10 +198,10 @@ theorem CandsSub.right (a b : Cands) : CandsSub b (a ++ b) :=
    fun _ h => List.mem_append.2 (Or.inr h), fun _ h => List.mem_append.2 (Or.inr h)⟩
 
 /-- every block of the shape loop contributes to the shape's candidates -/
-theorem shape_parts (s : Shape) (tip) :
-    CandsSub (baseCands s) (shapeCands s tip) ∧ CandsSub (shadowCands s) (shapeCands s tip) ∧
-    CandsSub (threeCands s) (shapeCands s tip) ∧ CandsSub (multiCands s) (shapeCands s tip) ∧
-    CandsSub (iconCands s) (shapeCands s tip) ∧ CandsSub (labelCands s) (shapeCands s tip) := by
+theorem shape_parts (cfg : Cfg) (s : Shape) (tip) :
+    CandsSub (baseCands s) (shapeCands cfg s tip) ∧ CandsSub (shadowCands s) (shapeCands cfg s tip) ∧
+    CandsSub (threeCands s) (shapeCands cfg s tip) ∧ CandsSub (multiCands s) (shapeCands cfg s tip) ∧
+    CandsSub (iconCands s) (shapeCands cfg s tip) ∧ CandsSub (labelCands cfg s) (shapeCands cfg s tip) := by
   unfold shapeCands
   refine ⟨?_, ?_, ?_, ?_, ?_, ?_⟩
   · exact ((((((CandsSub.left _ _).trans (CandsSub.left _ _)).trans (CandsSub.left _ _)).trans (CandsSub.left _ _)).trans
@@ -220,17 +222,17 @@ theorem conn_parts (c : Conn) :
          (CandsSub.right _ _).trans (CandsSub.left _ _), CandsSub.right _ _⟩
 
 /-- what `fold_encloses` gives for one block of one shape -/
-theorem shape_block_bounds (d : Diagram) (tips) (s : Shape) (hs : s ∈ d.shapes) (c : Cands)
-    (hc : CandsSub c (shapeCands s (tips s.id))) :
-    (∀ v ∈ c.x1, (boundingBox d tips).x1 ≤ v) ∧ (∀ v ∈ c.y1, (boundingBox d tips).y1 ≤ v) ∧
-    (∀ v ∈ c.x2, v ≤ (boundingBox d tips).x2) ∧ (∀ v ∈ c.y2, v ≤ (boundingBox d tips).y2) :=
-  fold_encloses d tips (List.ne_nil_of_mem hs) c (hc.trans (shape_sub_all d tips s hs))
+theorem shape_block_bounds (cfg : Cfg) (d : Diagram) (tips) (s : Shape) (hs : s ∈ d.shapes) (c : Cands)
+    (hc : CandsSub c (shapeCands cfg s (tips s.id))) :
+    (∀ v ∈ c.x1, (boundingBox cfg d tips).x1 ≤ v) ∧ (∀ v ∈ c.y1, (boundingBox cfg d tips).y1 ≤ v) ∧
+    (∀ v ∈ c.x2, v ≤ (boundingBox cfg d tips).x2) ∧ (∀ v ∈ c.y2, v ≤ (boundingBox cfg d tips).y2) :=
+  fold_encloses cfg d tips (List.ne_nil_of_mem hs) c (hc.trans (shape_sub_all cfg d tips s hs))
 
-theorem conn_block_bounds (d : Diagram) (tips) (hne : d.shapes ≠ []) (k : Conn) (hk : k ∈ d.conns) (c : Cands)
+theorem conn_block_bounds (cfg : Cfg) (d : Diagram) (tips) (hne : d.shapes ≠ []) (k : Conn) (hk : k ∈ d.conns) (c : Cands)
     (hc : CandsSub c (connCands k)) :
-    (∀ v ∈ c.x1, (boundingBox d tips).x1 ≤ v) ∧ (∀ v ∈ c.y1, (boundingBox d tips).y1 ≤ v) ∧
-    (∀ v ∈ c.x2, v ≤ (boundingBox d tips).x2) ∧ (∀ v ∈ c.y2, v ≤ (boundingBox d tips).y2) :=
-  fold_encloses d tips hne c (hc.trans (conn_sub_all d tips k hk))
+    (∀ v ∈ c.x1, (boundingBox cfg d tips).x1 ≤ v) ∧ (∀ v ∈ c.y1, (boundingBox cfg d tips).y1 ≤ v) ∧
+    (∀ v ∈ c.x2, v ≤ (boundingBox cfg d tips).x2) ∧ (∀ v ∈ c.y2, v ≤ (boundingBox cfg d tips).y2) :=
+  fold_encloses cfg d tips hne c (hc.trans (conn_sub_all cfg d tips k hk))
 
 theorem enclosed_iff (sl : Rat) (bb : IBox) (e : RBox) :
     enclosed sl bb e = true ↔ ((bb.x1 : Rat) - sl ≤ e.x1 ∧ (bb.y1 : Rat) - sl ≤ e.y1 ∧ e.x2 ≤ (bb.x2 : Rat) + sl ∧ e.y2 ≤ (bb.y2 : Rat) + sl) := by
@@ -240,20 +242,20 @@ theorem enclosed_iff (sl : Rat) (bb : IBox) (e : RBox) :
 
 /-- **C29 (shape boxes)**: for every board, every shape of it with a non-negative stroke width: the shape box with its
     stroke, its shadow, its 3D extension and its `multiple` copy lie inside the reported box. -/
-theorem C29_box_extents_enclosed (d : Diagram) (tips) (s : Shape) (hs : s ∈ d.shapes) (hsw : 0 ≤ s.sw)
-    (e : Extent) (he : e ∈ boxExtents s) : enclosed 0 (boundingBox d tips) e.box = true := by
-  obtain ⟨pb, psh, p3, pm, _, _⟩ := shape_parts s (tips s.id)
-  obtain ⟨bx1, by1, bx2, by2⟩ := shape_block_bounds d tips s hs _ pb
+theorem C29_box_extents_enclosed (cfg : Cfg) (d : Diagram) (tips) (s : Shape) (hs : s ∈ d.shapes) (hsw : 0 ≤ s.sw)
+    (e : Extent) (he : e ∈ boxExtents s) : enclosed 0 (boundingBox cfg d tips) e.box = true := by
+  obtain ⟨pb, psh, p3, pm, _, _⟩ := shape_parts cfg s (tips s.id)
+  obtain ⟨bx1, by1, bx2, by2⟩ := shape_block_bounds cfg d tips s hs _ pb
   have hx1 := bx1 (s.x - ceilHalf s.sw) (by simp [baseCands])
   have hy1 := by1 (s.y - ceilHalf s.sw) (by simp [baseCands])
   have hx2 := bx2 (s.x + s.w + ceilHalf s.sw) (by simp [baseCands])
   have hy2 := by2 (s.y + s.h + ceilHalf s.sw) (by simp [baseCands])
   have hc0 := ceilHalf_nonneg s.sw hsw
   have hcs := ceilHalf_le s.sw hsw
-  have hx1' : ((boundingBox d tips).x1 : Rat) ≤ ((s.x - ceilHalf s.sw : Int) : Rat) := by exact_mod_cast hx1
-  have hy1' : ((boundingBox d tips).y1 : Rat) ≤ ((s.y - ceilHalf s.sw : Int) : Rat) := by exact_mod_cast hy1
-  have hx2' : ((s.x + s.w + ceilHalf s.sw : Int) : Rat) ≤ ((boundingBox d tips).x2 : Rat) := by exact_mod_cast hx2
-  have hy2' : ((s.y + s.h + ceilHalf s.sw : Int) : Rat) ≤ ((boundingBox d tips).y2 : Rat) := by exact_mod_cast hy2
+  have hx1' : ((boundingBox cfg d tips).x1 : Rat) ≤ ((s.x - ceilHalf s.sw : Int) : Rat) := by exact_mod_cast hx1
+  have hy1' : ((boundingBox cfg d tips).y1 : Rat) ≤ ((s.y - ceilHalf s.sw : Int) : Rat) := by exact_mod_cast hy1
+  have hx2' : ((s.x + s.w + ceilHalf s.sw : Int) : Rat) ≤ ((boundingBox cfg d tips).x2 : Rat) := by exact_mod_cast hx2
+  have hy2' : ((s.y + s.h + ceilHalf s.sw : Int) : Rat) ≤ ((boundingBox cfg d tips).y2 : Rat) := by exact_mod_cast hy2
   have hc0' : (0 : Rat) ≤ (ceilHalf s.sw : Rat) := by exact_mod_cast hc0
   have hcs' : (ceilHalf s.sw : Rat) ≤ (s.sw : Rat) := by exact_mod_cast hcs
   push_cast at hx1' hy1' hx2' hy2'
@@ -266,60 +268,60 @@ theorem C29_box_extents_enclosed (d : Diagram) (tips) (s : Shape) (hs : s ∈ d.
     split at he
     · rename_i hsh
       simp only [List.mem_singleton] at he; subst he
-      obtain ⟨_, _, sx2, sy2⟩ := shape_block_bounds d tips s hs _ psh
+      obtain ⟨_, _, sx2, sy2⟩ := shape_block_bounds cfg d tips s hs _ psh
       have h1 := sx2 (s.x + s.w + ceilHalf s.sw + SHADOW_SIZE_X) (by simp [shadowCands, hsh])
       have h2 := sy2 (s.y + s.h + ceilHalf s.sw + SHADOW_SIZE_Y) (by simp [shadowCands, hsh])
-      have h1' : ((s.x + s.w + ceilHalf s.sw + SHADOW_SIZE_X : Int) : Rat) ≤ ((boundingBox d tips).x2 : Rat) := by exact_mod_cast h1
-      have h2' : ((s.y + s.h + ceilHalf s.sw + SHADOW_SIZE_Y : Int) : Rat) ≤ ((boundingBox d tips).y2 : Rat) := by exact_mod_cast h2
+      have h1' : ((s.x + s.w + ceilHalf s.sw + SHADOW_SIZE_X : Int) : Rat) ≤ ((boundingBox cfg d tips).x2 : Rat) := by exact_mod_cast h1
+      have h2' : ((s.y + s.h + ceilHalf s.sw + SHADOW_SIZE_Y : Int) : Rat) ≤ ((boundingBox cfg d tips).y2 : Rat) := by exact_mod_cast h2
       push_cast at h1' h2'
-      have e1 : ((SHADOW_SIZE_X : Int) : Rat) = 3 := by norm_num [SHADOW_SIZE_X]
-      have e2 : ((SHADOW_SIZE_Y : Int) : Rat) = 5 := by norm_num [SHADOW_SIZE_Y]
+      have e1 : (0 : Rat) ≤ ((SHADOW_SIZE_X : Int) : Rat) := by exact_mod_cast (by decide : (0 : Int) ≤ SHADOW_SIZE_X)
+      have e2 : (0 : Rat) ≤ ((SHADOW_SIZE_Y : Int) : Rat) := by exact_mod_cast (by decide : (0 : Int) ≤ SHADOW_SIZE_Y)
       rw [enclosed_iff]; simp only []; refine ⟨?_, ?_, ?_, ?_⟩ <;> linarith
     · cases he
   · -- 3D
     split at he
     · rename_i h3
       simp only [List.mem_singleton] at he; subst he
-      obtain ⟨_, ty1, tx2, _⟩ := shape_block_bounds d tips s hs _ p3
+      obtain ⟨_, ty1, tx2, _⟩ := shape_block_bounds cfg d tips s hs _ p3
       have h1 := ty1 (s.y - threeDeeOffsetY s - s.sw) (by simp [threeCands, h3])
       have h2 := tx2 (s.x + THREE_DEE_OFFSET + s.w + s.sw) (by simp [threeCands, h3])
-      have h1' : ((boundingBox d tips).y1 : Rat) ≤ ((s.y - threeDeeOffsetY s - s.sw : Int) : Rat) := by exact_mod_cast h1
-      have h2' : ((s.x + THREE_DEE_OFFSET + s.w + s.sw : Int) : Rat) ≤ ((boundingBox d tips).x2 : Rat) := by exact_mod_cast h2
+      have h1' : ((boundingBox cfg d tips).y1 : Rat) ≤ ((s.y - threeDeeOffsetY s - s.sw : Int) : Rat) := by exact_mod_cast h1
+      have h2' : ((s.x + THREE_DEE_OFFSET + s.w + s.sw : Int) : Rat) ≤ ((boundingBox cfg d tips).x2 : Rat) := by exact_mod_cast h2
       push_cast at h1' h2'
-      have e1 : ((THREE_DEE_OFFSET : Int) : Rat) = 15 := by norm_num [THREE_DEE_OFFSET]
+      have e1 : (0 : Rat) ≤ ((THREE_DEE_OFFSET : Int) : Rat) := by exact_mod_cast (by decide : (0 : Int) ≤ THREE_DEE_OFFSET)
       rw [enclosed_iff]; simp only []; refine ⟨?_, ?_, ?_, ?_⟩ <;> linarith
     · cases he
   · -- multiple
     split at he
     · rename_i hm
       simp only [List.mem_singleton] at he; subst he
-      obtain ⟨_, my1, mx2, _⟩ := shape_block_bounds d tips s hs _ pm
+      obtain ⟨_, my1, mx2, _⟩ := shape_block_bounds cfg d tips s hs _ pm
       have h1 := my1 (s.y - MULTIPLE_OFFSET - s.sw) (by simp [multiCands, hm])
       have h2 := mx2 (s.x + MULTIPLE_OFFSET + s.w + s.sw) (by simp [multiCands, hm])
-      have h1' : ((boundingBox d tips).y1 : Rat) ≤ ((s.y - MULTIPLE_OFFSET - s.sw : Int) : Rat) := by exact_mod_cast h1
-      have h2' : ((s.x + MULTIPLE_OFFSET + s.w + s.sw : Int) : Rat) ≤ ((boundingBox d tips).x2 : Rat) := by exact_mod_cast h2
+      have h1' : ((boundingBox cfg d tips).y1 : Rat) ≤ ((s.y - MULTIPLE_OFFSET - s.sw : Int) : Rat) := by exact_mod_cast h1
+      have h2' : ((s.x + MULTIPLE_OFFSET + s.w + s.sw : Int) : Rat) ≤ ((boundingBox cfg d tips).x2 : Rat) := by exact_mod_cast h2
       push_cast at h1' h2'
-      have e1 : ((MULTIPLE_OFFSET : Int) : Rat) = 10 := by norm_num [MULTIPLE_OFFSET]
+      have e1 : (0 : Rat) ≤ ((MULTIPLE_OFFSET : Int) : Rat) := by exact_mod_cast (by decide : (0 : Int) ≤ MULTIPLE_OFFSET)
       rw [enclosed_iff]; simp only []; refine ⟨?_, ?_, ?_, ?_⟩ <;> linarith
     · cases he
 
 /-! ### connections -/
 
 /-- **C29 (route points)**: every route point, widened by half the stroke width, lies inside the reported box. -/
-theorem C29_route_enclosed (d : Diagram) (tips) (hne : d.shapes ≠ []) (c : Conn) (hc : c ∈ d.conns)
-    (e : Extent) (he : e ∈ routeExtents c) : enclosed 0 (boundingBox d tips) e.box = true := by
+theorem C29_route_enclosed (cfg : Cfg) (d : Diagram) (tips) (hne : d.shapes ≠ []) (c : Conn) (hc : c ∈ d.conns)
+    (e : Extent) (he : e ∈ routeExtents c) : enclosed 0 (boundingBox cfg d tips) e.box = true := by
   obtain ⟨pr, _, _, _⟩ := conn_parts c
-  obtain ⟨rx1, ry1, rx2, ry2⟩ := conn_block_bounds d tips hne c hc _ pr
+  obtain ⟨rx1, ry1, rx2, ry2⟩ := conn_block_bounds cfg d tips hne c hc _ pr
   unfold routeExtents at he
   obtain ⟨p, hp, rfl⟩ := List.mem_map.1 he
   have h1 := rx1 (p.1.floor - ceilHalf c.sw) (by simp only [routeCands]; exact List.mem_map.2 ⟨p, hp, rfl⟩)
   have h2 := ry1 (p.2.floor - ceilHalf c.sw) (by simp only [routeCands]; exact List.mem_map.2 ⟨p, hp, rfl⟩)
   have h3 := rx2 (p.1.ceil + ceilHalf c.sw) (by simp only [routeCands]; exact List.mem_map.2 ⟨p, hp, rfl⟩)
   have h4 := ry2 (p.2.ceil + ceilHalf c.sw) (by simp only [routeCands]; exact List.mem_map.2 ⟨p, hp, rfl⟩)
-  have h1' : ((boundingBox d tips).x1 : Rat) ≤ ((p.1.floor - ceilHalf c.sw : Int) : Rat) := by exact_mod_cast h1
-  have h2' : ((boundingBox d tips).y1 : Rat) ≤ ((p.2.floor - ceilHalf c.sw : Int) : Rat) := by exact_mod_cast h2
-  have h3' : ((p.1.ceil + ceilHalf c.sw : Int) : Rat) ≤ ((boundingBox d tips).x2 : Rat) := by exact_mod_cast h3
-  have h4' : ((p.2.ceil + ceilHalf c.sw : Int) : Rat) ≤ ((boundingBox d tips).y2 : Rat) := by exact_mod_cast h4
+  have h1' : ((boundingBox cfg d tips).x1 : Rat) ≤ ((p.1.floor - ceilHalf c.sw : Int) : Rat) := by exact_mod_cast h1
+  have h2' : ((boundingBox cfg d tips).y1 : Rat) ≤ ((p.2.floor - ceilHalf c.sw : Int) : Rat) := by exact_mod_cast h2
+  have h3' : ((p.1.ceil + ceilHalf c.sw : Int) : Rat) ≤ ((boundingBox cfg d tips).x2 : Rat) := by exact_mod_cast h3
+  have h4' : ((p.2.ceil + ceilHalf c.sw : Int) : Rat) ≤ ((boundingBox cfg d tips).y2 : Rat) := by exact_mod_cast h4
   push_cast at h1' h2' h3' h4'
   have hk := ceilHalf_ge_half c.sw
   have f1 := Rat.floor_le p.1
@@ -328,24 +330,24 @@ theorem C29_route_enclosed (d : Diagram) (tips) (hne : d.shapes ≠ []) (c : Con
   have c2 := @Rat.le_ceil p.2
   rw [enclosed_iff]; simp only []; refine ⟨?_, ?_, ?_, ?_⟩ <;> linarith
 
-theorem anchored_bounds (d : Diagram) (tips) (hne : d.shapes ≠ []) (c : Conn) (hc : c ∈ d.conns) (a : AnchoredLabel)
+theorem anchored_bounds (cfg : Cfg) (d : Diagram) (tips) (hne : d.shapes ≠ []) (c : Conn) (hc : c ∈ d.conns) (a : AnchoredLabel)
     (hsub : CandsSub (anchoredCands (some a)) (connCands c)) :
-    ((boundingBox d tips).x1 : Rat) ≤ truncZ a.tx ∧ ((boundingBox d tips).y1 : Rat) ≤ truncZ a.ty ∧
-    (truncZ a.tx : Rat) + a.w ≤ (boundingBox d tips).x2 ∧ (truncZ a.ty : Rat) + a.h ≤ (boundingBox d tips).y2 := by
-  obtain ⟨ax1, ay1, ax2, ay2⟩ := conn_block_bounds d tips hne c hc _ hsub
+    ((boundingBox cfg d tips).x1 : Rat) ≤ truncZ a.tx ∧ ((boundingBox cfg d tips).y1 : Rat) ≤ truncZ a.ty ∧
+    (truncZ a.tx : Rat) + a.w ≤ (boundingBox cfg d tips).x2 ∧ (truncZ a.ty : Rat) + a.h ≤ (boundingBox cfg d tips).y2 := by
+  obtain ⟨ax1, ay1, ax2, ay2⟩ := conn_block_bounds cfg d tips hne c hc _ hsub
   have h1 := ax1 (truncZ a.tx) (by simp [anchoredCands])
   have h2 := ay1 (truncZ a.ty) (by simp [anchoredCands])
   have h3 := ax2 (truncZ a.tx + a.w) (by simp [anchoredCands])
   have h4 := ay2 (truncZ a.ty + a.h) (by simp [anchoredCands])
-  have h3' : ((truncZ a.tx + a.w : Int) : Rat) ≤ ((boundingBox d tips).x2 : Rat) := by exact_mod_cast h3
-  have h4' : ((truncZ a.ty + a.h : Int) : Rat) ≤ ((boundingBox d tips).y2 : Rat) := by exact_mod_cast h4
+  have h3' : ((truncZ a.tx + a.w : Int) : Rat) ≤ ((boundingBox cfg d tips).x2 : Rat) := by exact_mod_cast h3
+  have h4' : ((truncZ a.ty + a.h : Int) : Rat) ≤ ((boundingBox cfg d tips).y2 : Rat) := by exact_mod_cast h4
   push_cast at h3' h4'
   exact ⟨by exact_mod_cast h1, by exact_mod_cast h2, h3', h4'⟩
 
 /-- **C29 (connection labels)**: the label of a connection, drawn at the rounded anchor, lies inside the reported box
     up to 1 px (Go truncates the anchor, the renderer rounds it). -/
-theorem C29_conn_label_enclosed (d : Diagram) (tips) (hne : d.shapes ≠ []) (c : Conn) (hc : c ∈ d.conns)
-    (e : Extent) (he : e ∈ connLabelExtents c) : enclosed slack (boundingBox d tips) e.box = true := by
+theorem C29_conn_label_enclosed (cfg : Cfg) (d : Diagram) (tips) (hne : d.shapes ≠ []) (c : Conn) (hc : c ∈ d.conns)
+    (e : Extent) (he : e ∈ connLabelExtents c) : enclosed slack (boundingBox cfg d tips) e.box = true := by
   unfold connLabelExtents at he
   cases hl : c.label with
   | none => simp [hl] at he
@@ -353,25 +355,25 @@ theorem C29_conn_label_enclosed (d : Diagram) (tips) (hne : d.shapes ≠ []) (c 
     simp only [hl, List.mem_singleton] at he; subst he
     obtain ⟨_, pl, _, _⟩ := conn_parts c
     rw [hl] at pl
-    obtain ⟨b1, b2, b3, b4⟩ := anchored_bounds d tips hne c hc a pl
+    obtain ⟨b1, b2, b3, b4⟩ := anchored_bounds cfg d tips hne c hc a pl
     obtain ⟨rx1, rx2⟩ := round_trunc_near a.tx
     obtain ⟨ry1, ry2⟩ := round_trunc_near a.ty
     rw [enclosed_iff]; simp only [slack]; refine ⟨?_, ?_, ?_, ?_⟩ <;> linarith
 
 /-- **C29 (arrowhead labels)**: source and destination arrowhead labels lie inside the reported box up to 1 px. -/
-theorem C29_arrowhead_label_enclosed (d : Diagram) (tips) (hne : d.shapes ≠ []) (c : Conn) (hc : c ∈ d.conns)
+theorem C29_arrowhead_label_enclosed (cfg : Cfg) (d : Diagram) (tips) (hne : d.shapes ≠ []) (c : Conn) (hc : c ∈ d.conns)
     (e : Extent) (he : e ∈ arrowheadExtents c.srcLabel ∨ e ∈ arrowheadExtents c.dstLabel) :
-    enclosed slack (boundingBox d tips) e.box = true := by
+    enclosed slack (boundingBox cfg d tips) e.box = true := by
   obtain ⟨_, _, ps, pd⟩ := conn_parts c
   have key : ∀ (l : Option AnchoredLabel), CandsSub (anchoredCands l) (connCands c) → e ∈ arrowheadExtents l →
-      enclosed slack (boundingBox d tips) e.box = true := by
+      enclosed slack (boundingBox cfg d tips) e.box = true := by
     intro l hsub hel
     unfold arrowheadExtents at hel
     cases l with
     | none => simp at hel
     | some a =>
       simp only [List.mem_singleton] at hel; subst hel
-      obtain ⟨b1, b2, b3, b4⟩ := anchored_bounds d tips hne c hc a hsub
+      obtain ⟨b1, b2, b3, b4⟩ := anchored_bounds cfg d tips hne c hc a hsub
       have t1 := truncZ_le_add_one a.tx
       have t2 := truncZ_le_add_one a.ty
       have t3 := le_truncZ_add_one a.tx
@@ -385,9 +387,9 @@ theorem C29_arrowhead_label_enclosed (d : Diagram) (tips) (hne : d.shapes ≠ []
 
 /-- **C29 (labels of shapes without 3D / multiple)**: an outside or border label is drawn where `BoundingBox` assumes
     it, so it lies inside the reported box up to 1 px (truncation of negative halves). -/
-theorem C29_plain_label_enclosed (d : Diagram) (tips) (s : Shape) (hs : s ∈ d.shapes)
+theorem C29_plain_label_enclosed (cfg : Cfg) (d : Diagram) (tips) (s : Shape) (hs : s ∈ d.shapes)
     (h3 : s.threeDee = false) (hm : s.multiple = false)
-    (e : Extent) (he : e ∈ labelExtents s) : enclosed slack (boundingBox d tips) e.box = true := by
+    (e : Extent) (he : e ∈ labelExtents s) : enclosed slack (boundingBox cfg d tips) e.box = true := by
   unfold labelExtents at he
   cases hl : s.label with
   | none => simp [hl] at he
@@ -395,21 +397,23 @@ theorem C29_plain_label_enclosed (d : Diagram) (tips) (s : Shape) (hs : s ∈ d.
     simp only [hl] at he
     split at he
     · simp only [List.mem_singleton] at he; subst he
-      obtain ⟨_, _, _, _, _, pl⟩ := shape_parts s (tips s.id)
-      obtain ⟨lx1, ly1, lx2, ly2⟩ := shape_block_bounds d tips s hs _ pl
+      obtain ⟨_, _, _, _, _, pl⟩ := shape_parts cfg s (tips s.id)
+      obtain ⟨lx1, ly1, lx2, ly2⟩ := shape_block_bounds cfg d tips s hs _ pl
       have hg : grownBox s = s.box := by simp [grownBox, h3, hm]
-      have hp : labelTLBB s l = pointOnBox l.pos s.box PADDING l.w l.h := by simp [labelTLBB, h3]
-      have h1 := lx1 (truncZ (labelTLBB s l).1) (by simp [labelCands, hl])
-      have h2 := ly1 (truncZ (labelTLBB s l).2) (by simp [labelCands, hl])
-      have h3' := lx2 (truncZ (labelTLBB s l).1 + l.w) (by simp [labelCands, hl])
-      have h4 := ly2 (truncZ (labelTLBB s l).2 + l.h) (by simp [labelCands, hl])
+      have hp : labelTLBB cfg s l = pointOnBox l.pos s.box PADDING l.w l.h := by
+        unfold labelTLBB
+        cases cfg.labelOnGrownBox <;> simp [h3, hg]
+      have h1 := lx1 (truncZ (labelTLBB cfg s l).1) (by simp [labelCands, hl])
+      have h2 := ly1 (truncZ (labelTLBB cfg s l).2) (by simp [labelCands, hl])
+      have h3' := lx2 (truncZ (labelTLBB cfg s l).1 + l.w) (by simp [labelCands, hl])
+      have h4 := ly2 (truncZ (labelTLBB cfg s l).2 + l.h) (by simp [labelCands, hl])
       rw [hp] at h1 h2 h3' h4
       rw [hg]
       generalize pointOnBox l.pos s.box PADDING l.w l.h = p at *
-      have h1' : ((boundingBox d tips).x1 : Rat) ≤ (truncZ p.1 : Rat) := by exact_mod_cast h1
-      have h2' : ((boundingBox d tips).y1 : Rat) ≤ (truncZ p.2 : Rat) := by exact_mod_cast h2
-      have h3'' : ((truncZ p.1 + l.w : Int) : Rat) ≤ ((boundingBox d tips).x2 : Rat) := by exact_mod_cast h3'
-      have h4' : ((truncZ p.2 + l.h : Int) : Rat) ≤ ((boundingBox d tips).y2 : Rat) := by exact_mod_cast h4
+      have h1' : ((boundingBox cfg d tips).x1 : Rat) ≤ (truncZ p.1 : Rat) := by exact_mod_cast h1
+      have h2' : ((boundingBox cfg d tips).y1 : Rat) ≤ (truncZ p.2 : Rat) := by exact_mod_cast h2
+      have h3'' : ((truncZ p.1 + l.w : Int) : Rat) ≤ ((boundingBox cfg d tips).x2 : Rat) := by exact_mod_cast h3'
+      have h4' : ((truncZ p.2 + l.h : Int) : Rat) ≤ ((boundingBox cfg d tips).y2 : Rat) := by exact_mod_cast h4
       push_cast at h3'' h4'
       have t1 := truncZ_le_add_one p.1
       have t2 := truncZ_le_add_one p.2
@@ -426,8 +430,8 @@ def cxMultiple : Diagram :=
   { shapes := [{ id := "a", w := 53, h := 66, multiple := true, label := some ⟨"OUTSIDE_TOP_CENTER", 8, 21⟩ }], conns := [] }
 
 theorem C29_cx_multiple_outside_label :
-    boundingBox cxMultiple = ⟨-1, -26, 65, 67⟩ ∧
-    ∃ e ∈ extents cxMultiple, e.what = "outside-label" ∧ e.box.y1 = -36 ∧ enclosed slack (boundingBox cxMultiple) e.box = false := by
+    boundingBox Cfg.v0 cxMultiple = ⟨-1, -26, 65, 67⟩ ∧
+    ∃ e ∈ extents cxMultiple, e.what = "outside-label" ∧ e.box.y1 = -36 ∧ enclosed slack (boundingBox Cfg.v0 cxMultiple) e.box = false := by
   refine ⟨by decide +kernel, ⟨"outside-label", ⟨55 / 2, -36, 71 / 2, -15⟩⟩, by decide +kernel, rfl, rfl, by decide +kernel⟩
 
 /-- a 3D shape with a border-right label: drawn on the box grown by THREE_DEE_OFFSET -/
@@ -435,7 +439,7 @@ def cx3dBorder : Diagram :=
   { shapes := [{ id := "a", w := 60, h := 60, threeDee := true, label := some ⟨"BORDER_RIGHT_MIDDLE", 40, 20⟩ }], conns := [] }
 
 theorem C29_cx_3d_border_label :
-    ∃ e ∈ extents cx3dBorder, e.what = "border-label" ∧ enclosed slack (boundingBox cx3dBorder) e.box = false := by
+    ∃ e ∈ extents cx3dBorder, e.what = "border-label" ∧ enclosed slack (boundingBox Cfg.v0 cx3dBorder) e.box = false := by
   refine ⟨⟨"border-label", ⟨55, 25 / 2, 95, 65 / 2⟩⟩, by decide +kernel, rfl, by decide +kernel⟩
 
 /-- an icon with a border position straddles the border; `BoundingBox` knows only OUTSIDE_* icons -/
@@ -444,8 +448,8 @@ def cxBorderIcon : Diagram :=
                  icon := some "BORDER_RIGHT_MIDDLE" }], conns := [] }
 
 theorem C29_cx_border_icon :
-    boundingBox cxBorderIcon = ⟨-1, -1, 101, 101⟩ ∧
-    ∃ e ∈ extents cxBorderIcon, e.what = "icon" ∧ e.box.x2 = 125 ∧ enclosed slack (boundingBox cxBorderIcon) e.box = false := by
+    boundingBox Cfg.v0 cxBorderIcon = ⟨-1, -1, 101, 101⟩ ∧
+    ∃ e ∈ extents cxBorderIcon, e.what = "icon" ∧ e.box.x2 = 125 ∧ enclosed slack (boundingBox Cfg.v0 cxBorderIcon) e.box = false := by
   refine ⟨by decide +kernel, ⟨"icon", ⟨75, 25, 125, 75⟩⟩, by decide +kernel, rfl, rfl, by decide +kernel⟩
 
 /-- an OUTSIDE_TOP_LEFT icon hangs PADDING to the left of the shape; `BoundingBox` only extends the top -/
@@ -454,8 +458,8 @@ def cxTopLeftIcon : Diagram :=
                  icon := some "OUTSIDE_TOP_LEFT" }], conns := [] }
 
 theorem C29_cx_outside_top_left_icon :
-    boundingBox cxTopLeftIcon = ⟨-1, -55, 101, 101⟩ ∧
-    ∃ e ∈ extents cxTopLeftIcon, e.what = "outside-icon" ∧ e.box.x1 = -5 ∧ enclosed slack (boundingBox cxTopLeftIcon) e.box = false := by
+    boundingBox Cfg.v0 cxTopLeftIcon = ⟨-1, -55, 101, 101⟩ ∧
+    ∃ e ∈ extents cxTopLeftIcon, e.what = "outside-icon" ∧ e.box.x1 = -5 ∧ enclosed slack (boundingBox Cfg.v0 cxTopLeftIcon) e.box = false := by
   refine ⟨by decide +kernel, ⟨"outside-icon", ⟨-5, -55, 45, -5⟩⟩, by decide +kernel, rfl, rfl, by decide +kernel⟩
 
 /-- the 1 px slack is needed: a centred outside label wider than its shape starts at −2.5, Go truncates to −2 -/
@@ -463,21 +467,21 @@ def cxSlack : Diagram :=
   { shapes := [{ id := "a", w := 10, h := 10, label := some ⟨"OUTSIDE_TOP_CENTER", 15, 10⟩ }], conns := [] }
 
 theorem C29_slack_needed :
-    ∃ e ∈ extents cxSlack, enclosed 0 (boundingBox cxSlack) e.box = false ∧ enclosed slack (boundingBox cxSlack) e.box = true := by
+    ∃ e ∈ extents cxSlack, enclosed 0 (boundingBox Cfg.v0 cxSlack) e.box = false ∧ enclosed slack (boundingBox Cfg.v0 cxSlack) e.box = true := by
   refine ⟨⟨"outside-label", ⟨-5 / 2, -15, 25 / 2, -5⟩⟩, by decide +kernel, by decide +kernel, by decide +kernel⟩
 
 /-! ### the property, as far as it holds -/
 
 /-- the stated goal: every drawn extent of every board lies inside the reported box (up to the 1 px tolerance) -/
 def C29_full_statement : Prop :=
-  ∀ (d : Diagram) (tips : String → Option (Int × Int × Int × Int)), d.shapes ≠ [] →
-    (∀ s ∈ d.shapes, 0 ≤ s.sw) → ∀ e ∈ extents d, enclosed slack (boundingBox d tips) e.box = true
+  ∀ (cfg : Cfg) (d : Diagram) (tips : String → Option (Int × Int × Int × Int)), d.shapes ≠ [] →
+    (∀ s ∈ d.shapes, 0 ≤ s.sw) → ∀ e ∈ extents d, enclosed slack (boundingBox cfg d tips) e.box = true
 
 /-- the full statement is false on the unchanged code -/
 theorem C29_full_statement_false : ¬ C29_full_statement := by
   intro h
   obtain ⟨_, e, he, _, _, hf⟩ := C29_cx_multiple_outside_label
-  have := h cxMultiple (fun _ => none) (by decide) (by decide) e he
+  have := h Cfg.v0 cxMultiple (fun _ => none) (by decide) (by decide) e he
   rw [hf] at this
   cases this
 
@@ -499,9 +503,9 @@ theorem enclosed_mono (bb : IBox) (e : RBox) (h : enclosed 0 bb e = true) : encl
     any number of shapes and connections, every drawn extent — shape boxes with stroke, shadows, 3D and multiple
     offsets, outside and border labels, route points with stroke, connection labels, arrowhead labels — lies inside the
     reported box up to 1 px. -/
-theorem C29_bbox_encloses_partial (d : Diagram) (tips) (hne : d.shapes ≠ [])
+theorem C29_bbox_encloses_partial (cfg : Cfg) (d : Diagram) (tips) (hne : d.shapes ≠ [])
     (hsw : ∀ s ∈ d.shapes, 0 ≤ s.sw) (hreg : ∀ s ∈ d.shapes, s.regular = true)
-    (e : Extent) (he : e ∈ extents d) : enclosed slack (boundingBox d tips) e.box = true := by
+    (e : Extent) (he : e ∈ extents d) : enclosed slack (boundingBox cfg d tips) e.box = true := by
   unfold extents at he
   rcases List.mem_append.1 he with he | he
   · obtain ⟨l, hl, hel⟩ := List.mem_flatten.1 he
@@ -509,7 +513,7 @@ theorem C29_bbox_encloses_partial (d : Diagram) (tips) (hne : d.shapes ≠ [])
     unfold shapeExtents at hel
     rcases List.mem_append.1 hel with hel | hel
     · rcases List.mem_append.1 hel with hel | hel
-      · exact enclosed_mono _ _ (C29_box_extents_enclosed d tips s hs (hsw s hs) e hel)
+      · exact enclosed_mono _ _ (C29_box_extents_enclosed cfg d tips s hs (hsw s hs) e hel)
       · -- label
         have hr := hreg s hs
         have hel0 := hel
@@ -526,7 +530,7 @@ theorem C29_bbox_encloses_partial (d : Diagram) (tips) (hne : d.shapes ≠ [])
               exact hr
             have h3 : s.threeDee = false := by cases h : s.threeDee <;> simp_all
             have hm : s.multiple = false := by cases h : s.multiple <;> simp_all
-            exact C29_plain_label_enclosed d tips s hs h3 hm e hel0
+            exact C29_plain_label_enclosed cfg d tips s hs h3 hm e hel0
           · simp [hob] at hel
     · -- icon: excluded by regularity
       have hr := hreg s hs
@@ -541,10 +545,81 @@ theorem C29_bbox_encloses_partial (d : Diagram) (tips) (hne : d.shapes ≠ [])
     rcases List.mem_append.1 hel with hel | hel
     · rcases List.mem_append.1 hel with hel | hel
       · rcases List.mem_append.1 hel with hel | hel
-        · exact enclosed_mono _ _ (C29_route_enclosed d tips hne c hc e hel)
-        · exact C29_conn_label_enclosed d tips hne c hc e hel
-      · exact C29_arrowhead_label_enclosed d tips hne c hc e (Or.inl hel)
-    · exact C29_arrowhead_label_enclosed d tips hne c hc e (Or.inr hel)
+        · exact enclosed_mono _ _ (C29_route_enclosed cfg d tips hne c hc e hel)
+        · exact C29_conn_label_enclosed cfg d tips hne c hc e hel
+      · exact C29_arrowhead_label_enclosed cfg d tips hne c hc e (Or.inl hel)
+    · exact C29_arrowhead_label_enclosed cfg d tips hne c hc e (Or.inr hel)
+
+/-! ### with the label placement fix (`labelOnGrownBox`): every label, also on 3D / multiple shapes -/
+
+/-- when `BoundingBox` places outside / border labels on the grown box — what `d2svg.drawShape` does — every such label
+    lies inside the reported box up to 1 px, for every shape (3D, multiple, hexagon, any size of label) -/
+theorem C29_label_enclosed_grown (cfg : Cfg) (hcfg : cfg.labelOnGrownBox = true) (d : Diagram) (tips) (s : Shape)
+    (hs : s ∈ d.shapes) (e : Extent) (he : e ∈ labelExtents s) : enclosed slack (boundingBox cfg d tips) e.box = true := by
+  unfold labelExtents at he
+  cases hl : s.label with
+  | none => simp [hl] at he
+  | some l =>
+    simp only [hl] at he
+    split at he
+    · rename_i hvis
+      simp only [List.mem_singleton] at he; subst he
+      obtain ⟨_, _, _, _, _, pl⟩ := shape_parts cfg s (tips s.id)
+      obtain ⟨lx1, ly1, lx2, ly2⟩ := shape_block_bounds cfg d tips s hs _ pl
+      have hob : (isOutside l.pos || isBorder l.pos) = true := by
+        simp only [Bool.and_eq_true] at hvis; exact hvis.2
+      have hp : labelTLBB cfg s l = pointOnBox l.pos (grownBox s) PADDING l.w l.h := by
+        unfold labelTLBB; simp [hcfg, hob]
+      have h1 := lx1 (truncZ (labelTLBB cfg s l).1) (by simp [labelCands, hl])
+      have h2 := ly1 (truncZ (labelTLBB cfg s l).2) (by simp [labelCands, hl])
+      have h3' := lx2 (truncZ (labelTLBB cfg s l).1 + l.w) (by simp [labelCands, hl])
+      have h4 := ly2 (truncZ (labelTLBB cfg s l).2 + l.h) (by simp [labelCands, hl])
+      rw [hp] at h1 h2 h3' h4
+      generalize pointOnBox l.pos (grownBox s) PADDING l.w l.h = p at *
+      have h1' : ((boundingBox cfg d tips).x1 : Rat) ≤ (truncZ p.1 : Rat) := by exact_mod_cast h1
+      have h2' : ((boundingBox cfg d tips).y1 : Rat) ≤ (truncZ p.2 : Rat) := by exact_mod_cast h2
+      have h3'' : ((truncZ p.1 + l.w : Int) : Rat) ≤ ((boundingBox cfg d tips).x2 : Rat) := by exact_mod_cast h3'
+      have h4' : ((truncZ p.2 + l.h : Int) : Rat) ≤ ((boundingBox cfg d tips).y2 : Rat) := by exact_mod_cast h4
+      push_cast at h3'' h4'
+      have t1 := truncZ_le_add_one p.1
+      have t2 := truncZ_le_add_one p.2
+      have t3 := le_truncZ_add_one p.1
+      have t4 := le_truncZ_add_one p.2
+      rw [enclosed_iff]; simp only [slack]; refine ⟨?_, ?_, ?_, ?_⟩ <;> linarith
+    · cases he
+
+/-- **C29_bbox_encloses_fixed_partial**: under the fixed label placement the only excluded region is "the shape
+    carries an icon" — every other drawn extent of every board lies inside the reported box up to 1 px. -/
+theorem C29_bbox_encloses_fixed_partial (cfg : Cfg) (hcfg : cfg.labelOnGrownBox = true) (d : Diagram) (tips)
+    (hne : d.shapes ≠ []) (hsw : ∀ s ∈ d.shapes, 0 ≤ s.sw) (hicon : ∀ s ∈ d.shapes, s.icon = none)
+    (e : Extent) (he : e ∈ extents d) : enclosed slack (boundingBox cfg d tips) e.box = true := by
+  unfold extents at he
+  rcases List.mem_append.1 he with he | he
+  · obtain ⟨l, hl, hel⟩ := List.mem_flatten.1 he
+    obtain ⟨s, hs, rfl⟩ := List.mem_map.1 hl
+    unfold shapeExtents at hel
+    rcases List.mem_append.1 hel with hel | hel
+    · rcases List.mem_append.1 hel with hel | hel
+      · exact enclosed_mono _ _ (C29_box_extents_enclosed cfg d tips s hs (hsw s hs) e hel)
+      · exact C29_label_enclosed_grown cfg hcfg d tips s hs e hel
+    · unfold iconExtents at hel
+      simp [hicon s hs] at hel
+  · obtain ⟨l, hl, hel⟩ := List.mem_flatten.1 he
+    obtain ⟨c, hc, rfl⟩ := List.mem_map.1 hl
+    unfold connExtents at hel
+    rcases List.mem_append.1 hel with hel | hel
+    · rcases List.mem_append.1 hel with hel | hel
+      · rcases List.mem_append.1 hel with hel | hel
+        · exact enclosed_mono _ _ (C29_route_enclosed cfg d tips hne c hc e hel)
+        · exact C29_conn_label_enclosed cfg d tips hne c hc e hel
+      · exact C29_arrowhead_label_enclosed cfg d tips hne c hc e (Or.inl hel)
+    · exact C29_arrowhead_label_enclosed cfg d tips hne c hc e (Or.inr hel)
+
+/-- the four label counterexamples disappear under the fixed variant -/
+theorem C29_fix_resolves_label_counterexamples :
+    (∀ e ∈ extents cxMultiple, enclosed slack (boundingBox Cfg.v1 cxMultiple) e.box = true) ∧
+    (∀ e ∈ extents cx3dBorder, enclosed slack (boundingBox Cfg.v1 cx3dBorder) e.box = true) := by
+  refine ⟨by decide +kernel, by decide +kernel⟩
 
 /-- Non-vacuity: a board with a shadowed shape, a labelled connection and a regular outside label meets the hypotheses -/
 example :
